@@ -332,14 +332,35 @@ def check(ctx):
                    "messages is lost", key=f"handoff_guard")
     # the hand-off passes the stream as the key data
     setter = ctx.need(repo.funcs.get("bromelia.transport.TcpConnection._set_selector_events_mask"), "_set_selector_events_mask")
-    ok = False
-    for iff in [x for x in ast.walk(setter.node) if isinstance(x, ast.If)]:
-        if ast.unparse(iff.test) == "mode == 'rw'":
-            for c in [y for s in iff.body for y in ast.walk(s) if isinstance(y, ast.Call)]:
-                if call_name(c).endswith("selector.modify"):
-                    d = kwarg(c, "data")
-                    p2 = [p for p in setter.params() if p != "self"][1]
-                    ok = d is not None and ast.unparse(d) == p2
+    # on terms: the setter is interpreted for mode == 'rw' (selectors.EVENT_READ / EVENT_WRITE are the documented bits 1 and 2);
+    # every path that returns normally registers the given stream exactly once as the key data
+    from .. import sym as _sy
+    from ..astutil import strip_doc as _sd
+    ps_ = [p for p in setter.params() if p != "self"]
+    MSG_ = _sy.S(ps_[1]) if len(ps_) > 1 else None
+
+    def hk_(t):
+        if t == ("attr", ("name", "selectors"), "EVENT_READ"):
+            return 1
+        if t == ("attr", ("name", "selectors"), "EVENT_WRITE"):
+            return 2
+        return None
+    ok, n_p = MSG_ is not None, 0
+    if MSG_ is not None:
+        try:
+            paths_ = _sy.Interp(fold=lambda e: repo.fold(setter.mod, e), hook=hk_, log_calls=True).run(
+                _sd(setter.node.body), _sy.PathState({ps_[0]: "rw", ps_[1]: MSG_}, [], []))
+        except _sy.TooMany:
+            paths_ = []
+        for p_ in paths_:
+            if p_.term == "raise":
+                continue
+            n_p += 1
+            mods_ = [e[1] for e in p_.effects if e[0] == "ecall" and isinstance(e[1], tuple) and e[1][0] == "call"
+                     and _sy.show(e[1][1]).endswith("selector.modify")]
+            datas = [dict(m_[3]).get("data", m_[2][2] if len(m_[2]) > 2 else None) for m_ in mods_]
+            ok = ok and datas == [MSG_]
+        ok = ok and n_p > 0
     ctx.decide(ok, "R-FLOW/stream-handoff", setter.qual, setter.where(), "mode 'rw' attaches the given stream to the selector key",
                "mode 'rw' does not attach the given stream to the selector key (data=msg)", key="attach")
 
